@@ -8,6 +8,7 @@ from __future__ import annotations
 
 import ast
 import itertools
+import re
 
 from vp import harness, instrument, prelude, proggen, ty, universe
 
@@ -289,7 +290,9 @@ def mechanism_key(minkey: str, minsrc: str, fname: str, params=None, args=None, 
     if mismatch.endswith("not in Never"):
         mismatch = mismatch.split(" not in ")[0] + " reached Never"
     feats = features(minsrc, fname)
-    truthy_feats = ("truthy" in feats) or node in ("UnaryOp", "BoolOp") or "assert[" in feats and "truthy" in feats
+    # a bare name, or a subscript/attribute path (`if c[0]:`), used as a condition is a truthiness test
+    truthy_feats = ("truthy" in feats) or node in ("UnaryOp", "BoolOp") or bool(
+        re.search(r"(?:if|ifexp|assert|guard)\[[^\]]*\b(?:Subscript|Attribute)\b", feats))
     if params is not None and truthy_feats and _falsy_member_of_always_true_type(params, args):
         return "truthiness|falsy-member-of-type-assumed-always-true"
     if args is not None and _cross_type_equal(minsrc, fname, args):
